@@ -292,7 +292,11 @@ func (r *inFlightRequest) onFrameReceived(f *frame.Frame) error {
 		}
 		return nil
 	case <-r.ctx.Done():
-		return fmt.Errorf("%v: request closed", r)
+		err := fmt.Errorf("%v: request closed", r)
+		// the context may be done because the connection is being closed while this request is no longer
+		// registered (its last frame is being processed): nobody else would complete it
+		r.close(err)
+		return err
 	default:
 		err := fmt.Errorf("%v: too many pending incoming frames: %d", r, len(r.incoming))
 		r.close(err)
